@@ -39,6 +39,7 @@ def declare(rep):
     rep.rule("C02.bending-receivers", "bending: the four hinge nodes (edge nodes, opposite nodes of f1 and f2) receive the gradients of their own slots", floor=4)
     rep.rule("C02.force-coverage", "tension/elasticity and pressure forces are applied to every used face: a condition under which a face is skipped must make that face's force vanish identically (e.g. a degenerate face), otherwise the formula does not hold for the skipped parameter values (zero tension with non-zero elasticity, ...)", floor=2)
     rep.rule("C02.angle-range", "vec3::get_angle_with returns the angle in [0, pi]: acos of the normalised dot product (or atan2(|a x b|, a.b)); an inverse function whose range ends at pi/2 (asin, one-argument atan) folds obtuse angles onto acute ones and breaks the cotangent identities the bending and angle-regularisation forces rest on", floor=2)
+    rep.rule("C02.force-on-copy", "no force routine applies a force to a by-value copy of a node (`node& a = .., b = ..;` declares b as a copy): the force is lost and the forces of the face no longer cancel", floor=4)
     rep.rule("C02.translation", "every internal force is invariant under a common translation of the node positions", floor=10)
 
 
@@ -65,6 +66,16 @@ def run(rep, prog, tier):
     if not ledger_guards(rep, prog):
         return
     lints.check_slot_loops(rep, prog, "C02.slot-loop-bound", lambda cls, fn: cls == "cell")
+    for qn in ROUTINES:
+        for fn in prog.fns(qn):
+            if not isinstance(fn.get("body"), dict):
+                continue
+            lost = list(lints.lost_update_on_local_copy(prog, fn))
+            for v, m in lost:
+                rep.violation("C02.force-on-copy", prog, fn, m, "'%s' is a copy of a node" % v.get("name"),
+                              "%s declares '%s' (line %s) as a %s by value - a copy of the element it is initialised from - and then calls %s on it: the force goes to the temporary and is discarded, the other nodes of the face still receive theirs, so the internal forces of the face no longer sum to zero (a net force and torque appear on every face)" % (fn["qn"], v.get("name"), v.get("l"), v.get("t"), m.get("callee", "").split("::")[-1]))
+            if not lost:
+                rep.ok("C02.force-on-copy", prog, fn, None, "%s: every node / face that receives a force or is modified is a reference into the mesh" % fn["qn"])
     pressure(rep, prog)
     angle_range(rep, prog)
     angles(rep, prog)
